@@ -215,7 +215,7 @@ func init() {
 				if cur == last {
 					c.Violation("C12|hang", fmt.Sprintf("case did not return within 30 s: %v", c12Current.Load()), 0, nil)
 					c.Cap("stopped after a hang")
-					c.Write(os.Getenv("C12_OUT"))
+					c.Write(seqOut)
 					os.Exit(0)
 				}
 				last = cur
